@@ -45,6 +45,7 @@ def main(tier):
     nontriv = set()
     evals = 0
     nknown = 0
+    nbydesign = 0      # rmatvec = inverse by documented design: not an adjoint pair, not judged here
     for rec in recs:
         key = rec["family"] + json.dumps(rec["params"], sort_keys=True)
         if "error" in rec:
@@ -55,6 +56,9 @@ def main(tier):
         if np.abs(rec["A"]).max(initial=0) > 0:
             nontriv.add(key)
         c = codes.get(rec["id"], [])
+        if zoo.inverse_as_adjoint(rec["family"], rec["params"]):
+            nbydesign += 1
+            continue
         if 3 in c or 4 in c:
             rp = search(rec)
             kf = [k for k in known if k["family"] == rec["family"] and all(rec["params"].get(a) == b for a, b in k.get("params", {}).items())]
@@ -66,8 +70,9 @@ def main(tier):
                         % (rec["family"], rec["params"], rp["abs_defect"], rp["u_index"], rp["v_index"]), rp)
     fams = sorted(set(r["family"] for r in recs))
     R.cov.update(
-        obligations=len(thms) + len(recs) - nknown, known_finding_cases=nknown,
-        discharged=len(thms) + sum(1 for r in recs if "error" not in r and not ({3, 4} & set(codes.get(r["id"], [])))),
+        obligations=len(thms) + len(recs) - nknown - nbydesign, known_finding_cases=nknown, inverse_as_adjoint_by_design=nbydesign,
+        discharged=len(thms) + sum(1 for r in recs if "error" not in r and not zoo.inverse_as_adjoint(r["family"], r["params"])
+                                   and not ({3, 4} & set(codes.get(r["id"], [])))),
         checker_cmd="make -C coq (coqc 8.16.1, full .vo build) + coqc Props/C01.v (Print Assumptions) + coqc .work/oprun/cases_*.v (vm_compute)",
         theorems=thms, axioms_reported=axioms,
         evaluations=evals, distinct_nontrivial=len(nontriv),
